@@ -14,6 +14,7 @@ import (
 type histoPair struct {
 	key string
 	val int64
+	set bool // line has been written at least once
 }
 
 type HistoWriter struct {
@@ -67,6 +68,7 @@ func (s *HistoWriter) WriteForLine(line int, key string, val int64) {
 	s.items[line] = histoPair{
 		key: key,
 		val: val,
+		set: true,
 	}
 
 	if needsFullRefresh {
@@ -83,7 +85,7 @@ func (s *HistoWriter) UpdateTotal(total int64) {
 
 func (s *HistoWriter) fullRender() {
 	for idx, item := range s.items {
-		if item.val > 0 {
+		if item.set { // also rows whose count is zero
 			s.writeLine(idx, item.key, item.val)
 		}
 	}
